@@ -11,6 +11,7 @@ import (
 	"os"
 	"path/filepath"
 	"sort"
+	"syscall"
 	"time"
 
 	"google.golang.org/grpc/metadata"
@@ -145,9 +146,20 @@ func (e *Env) open() error {
 			Fraction:          frac.Config{SkipSortDocs: e.O.SkipSortDocs},
 		},
 	}
+	fcPath := filepath.Join(e.O.Dir, ".frac-cache")
+	before := fileIno(fcPath)
 	st, err := storeapi.NewStore(context.Background(), cfg, e.MP)
 	if err != nil {
 		return err
+	}
+	// FracManager.Start runs one maintenance pass at once in its own goroutine (util.RunEvery). Drivers
+	// that run maintenance passes themselves (VerifMaintenance) must not overlap with it - two concurrent
+	// passes cannot happen in production. The pass ends by rewriting .frac-cache (new inode): wait for it.
+	for i := 0; i < 5000; i++ {
+		if now := fileIno(fcPath); now != 0 && now != before {
+			break
+		}
+		time.Sleep(time.Millisecond)
 	}
 	e.Store = st
 	e.Client = storeapi.NewClient(st)
@@ -408,3 +420,14 @@ func (e *Env) FetchReq(req *pb.FetchRequest) ([][]byte, [][2]uint64, error) {
 }
 
 const MaxMID = math.MaxInt64
+
+func fileIno(p string) uint64 {
+	st, err := os.Stat(p)
+	if err != nil {
+		return 0
+	}
+	if sys, ok := st.Sys().(*syscall.Stat_t); ok {
+		return sys.Ino
+	}
+	return uint64(st.ModTime().UnixNano())
+}
